@@ -118,6 +118,20 @@ Check (C19_bound_style_irrelevant :
   forall (m f k s : Z) (rest : list Z),
     0 < k < 100 -> 0 <= s <= 2 ->
     run_c19 (m :: f :: (k + 100 * s) :: rest) = run_c19 (m :: f :: k :: rest)).
+Check (C19_tuple_align1_sound :
+  forall es : list fld,
+    (forall e, In e es -> f_a1 e = true -> f_align e = 1) ->
+    f_a1 (tuple_fld es) = true ->
+    f_align (tuple_fld es) = 1 /\ f_size (tuple_fld es) = fsum es).
+Check (C19_tuple_align1_first_unbounded_refuted :
+  exists es : list fld,
+    (forall e, In e es -> f_a1 e = true -> f_align e = 1)
+    /\ f_a1 (tuple_fld_first_unbounded es) = true
+    /\ f_align (tuple_fld_first_unbounded es) = 8
+    /\ f_a1 (tuple_fld es) = false).
+Check (C19_field_menu_align1_sound :
+  forall (g c : Z) (f : fld),
+    field_of (menu g) c = Some f -> f_a1 f = true -> f_align f = 1).
 
 Print Assumptions C19_align1_sound.
 Print Assumptions C19_align1_sound_unrepaired_refuted.
@@ -143,3 +157,6 @@ Print Assumptions C19_valid_zero_copy_skip_packed.
 Print Assumptions C19_valid_zero_copy_enum.
 Print Assumptions C19_valid_unsized.
 Print Assumptions C19_bound_style_irrelevant.
+Print Assumptions C19_tuple_align1_sound.
+Print Assumptions C19_tuple_align1_first_unbounded_refuted.
+Print Assumptions C19_field_menu_align1_sound.
